@@ -12,7 +12,7 @@ RULE = ("Histories as generated operation lists over a pool of shared objects (2
         "change a public attribute of a correlations object (temperature, alpha, zeta, cutoff, cutoff_type, j_function; "
         "correlation_function of a third pool member, a CustomCorrelations object); "
         "evaluate correlation / spectral_density / eta_function / correlation_2d_integral on a pool member; build a Bath from "
-        "a pool member; query a Bath built earlier; run a computation (TEMPO, PT-TEMPO, Gibbs, compute_dynamics, "
+        "a pool member; query a Bath built earlier; use an array obtained from oqupy.operators as scratch space and request it again; run a computation (TEMPO, PT-TEMPO, Gibbs, compute_dynamics, "
         "state_gradient, compute_correlations, PT-TEBD) with pool members and with caller arrays passed C-ordered, F-ordered, "
         "as strided views, read-only, or as transposed views; closed-system compute_dynamics / compute_dynamics_with_field "
         "included. Oracles: (0) a returned Dynamics does not change when the caller overwrites its input arrays after the call; (i) every caller array is bit-identical afterwards "
@@ -53,6 +53,10 @@ CFUNS = [lambda t: 0.2 * np.exp(-abs(t)) * (np.cos(t) - 0.5j * np.sin(t)), lambd
          lambda t: 0.1 * np.cos(1.3 * t) - 0.1j * np.sin(1.3 * t)]
 
 
+OPERATOR_NAMES = [("sigma", n) for n in ("id", "x", "y", "z", "+", "-")] + \
+                 [("spin_dm", n) for n in ("up", "down", "z+", "z-", "x+", "x-", "y+", "y-", "mixed")]
+
+
 def layout(a, kind):
     a = np.array(a, dtype=complex if np.iscomplexobj(a) else float)
     if kind == "C":
@@ -79,7 +83,7 @@ def s_case(draw, tier):
     n = draw(st.integers(3, 8 if tier == "quick" else 14))
     ops = []
     for _ in range(n):
-        kind = draw(st.sampled_from(["set", "set", "eval", "eval", "bath", "eval-bath", "compute", "compute", "make-pt", "make-pt", "use-pt", "use-pt", "use-pt", "alt-system"]))
+        kind = draw(st.sampled_from(["set", "set", "eval", "eval", "bath", "eval-bath", "compute", "compute", "make-pt", "make-pt", "use-pt", "use-pt", "use-pt", "alt-system", "scratch-operator"]))
         c = draw(st.sampled_from([0, 1, 0, 1, 2]))
         if kind == "set":
             attr = draw(st.sampled_from([ATTRS_PL, ATTRS_CU, ATTRS_CC][c]))
@@ -92,6 +96,8 @@ def s_case(draw, tier):
         elif kind == "eval-bath":
             ops.append({"op": "eval-bath", "b": draw(st.integers(0, 3)),
                         "what": draw(st.sampled_from(["correlation", "spectral_density", "2d-square"])), "x": draw(st.sampled_from([0.1, 0.3]))})
+        elif kind == "scratch-operator":
+            ops.append({"op": "scratch-operator", "which": draw(st.sampled_from(OPERATOR_NAMES))})
         elif kind == "alt-system":
             ops.append({"op": "alt-system", "variant": draw(st.sampled_from(["H", "-H", "H^T", "PHP", "2H"])),
                         "dt": draw(st.sampled_from([0.1, 0.1, 0.2]))})
@@ -324,6 +330,27 @@ def run_case(case):
             if not abs(got - want) <= 1e-12 * max(1.0, abs(want)):
                 out.fail(f"bath-follows-later-changes:{op['what']}:{snap_p['type']}",
                          f"op {i}: bath.correlations.{op['what']}({op['x']}) = {got:.8g}, value at construction {want:.8g}")
+                return out
+        elif kind == "scratch-operator":
+            # the caller uses an array it got from oqupy.operators as scratch space: the next request must still return
+            # the documented matrix (the factory functions hand out fresh arrays)
+            from oqupy import operators as _ops
+            fn, name = op["which"]
+            f = getattr(_ops, fn)
+            try:
+                a = f(name)
+            except Exception:
+                continue
+            want = np.array(a, dtype=complex)
+            if a.flags["WRITEABLE"]:
+                a *= 0.5
+                a[0, 0] += 3.0
+            b = f(name)
+            reuse = True
+            out.label("scratch-operator")
+            if not np.array_equal(np.asarray(b, dtype=complex), want):
+                out.fail(f"operator-follows-callers-scratch-use:{fn}", f"op {i}: oqupy.operators.{fn}({name!r}) returns {np.asarray(b).tolist()} "
+                         f"after the caller modified the array of an earlier call")
                 return out
         elif kind == "alt-system":
             # other system objects with the same shape / norm / |entries| used in the same process: results must not
